@@ -28,17 +28,18 @@ type failure struct {
 }
 
 type summary struct {
-	Cases        int                `json:"cases"`
-	Imported     int                `json:"imported"`
-	Refused      int                `json:"refused"`
-	ParseRefused int                `json:"parse_refused"`
-	Nontrivial   int                `json:"nontrivial"`
-	Signals      int                `json:"signals"`
-	Decodes      int                `json:"decodes"`
-	Hist         map[string]int     `json:"hist"`
-	Failures     map[string]failure `json:"failures"`
-	Samples      []string           `json:"samples"`
-	RefusedValid map[string]string  `json:"refused_valid"`
+	Cases        int                 `json:"cases"`
+	Imported     int                 `json:"imported"`
+	Refused      int                 `json:"refused"`
+	ParseRefused int                 `json:"parse_refused"`
+	Nontrivial   int                 `json:"nontrivial"`
+	Signals      int                 `json:"signals"`
+	Decodes      int                 `json:"decodes"`
+	Hist         map[string]int      `json:"hist"`
+	Failures     map[string]failure  `json:"failures"`
+	Samples      []string            `json:"samples"`
+	FailedCases  map[string][]string `json:"failed_cases"`
+	RefusedValid map[string]string   `json:"refused_valid"`
 }
 
 func safeImport(name, text string) (bus *acmelib.Bus, err error, panicked string) {
@@ -70,6 +71,9 @@ type runner struct {
 }
 
 func (rn *runner) fail(id, text string, f finding) {
+	if len(rn.sum.FailedCases[id]) < 8 {
+		rn.sum.FailedCases[id] = append(rn.sum.FailedCases[id], f.Sig)
+	}
 	lines := strings.Count(text, "\n")
 	if old, ok := rn.sum.Failures[f.Sig]; ok && old.Lines <= lines {
 		return
@@ -338,7 +342,7 @@ func main() {
 	only := flag.String("only", "", "run only the generated case with this id, verbosely")
 	flag.Parse()
 
-	sum := &summary{Hist: map[string]int{}, Failures: map[string]failure{}, RefusedValid: map[string]string{}}
+	sum := &summary{Hist: map[string]int{}, Failures: map[string]failure{}, RefusedValid: map[string]string{}, FailedCases: map[string][]string{}}
 	cf, _ := os.Create(filepath.Join(*out, "cases.txt"))
 	imf, _ := os.Create(filepath.Join(*out, "impl.txt"))
 	rn := &runner{sum: sum, cases: bufio.NewWriterSize(cf, 1<<20), impl: bufio.NewWriterSize(imf, 1<<20), seen: map[string]bool{}}
